@@ -22,12 +22,15 @@ import vlib
 PROP = "C17"
 SPEC_DIR = os.path.join(vlib.SPEC, "matrix")
 BIN_OPS = ("add", "sub", "add_assign", "sub_assign", "sub_assign_ref")
+SC2_DEFAULTS = {"op2": "none", "i2": 0, "j2": 0, "s2": 0, "ckind": "F", "cml": 0, "cmu": 0, "cpat": "zero"}
 CHUNK = 3000           # scenarios per trace-validation TLC run
 PARALLEL = 6
 
 ASSUMPTIONS = [
     "entries, scalars and results are small integers, which are exact in f64: equality in the trace spec is bit-exact equality of the floats",
     "only square matrices (m = n) of size 1..3 (thorough: 1..4); band widths 0..n; the second operand of a binary op is built with identity / zeros / banded",
+    "two-operation sequences: sizes 1..3; quick uses all storage shapes for n=1, 7 shapes for n=2 and a 3-shape slice for n=3, thorough all shapes; "
+    "'inside the band' for a write into an operation's result refers to the storage (kind, ml, mu) the code itself reports for that result",
     "fill patterns instead of all entry assignments: 'dist' (all entries distinct), 'sq' (squares; sums and differences with 'dist' are distinct), identity-like patterns for is_identity",
     "the harness (replay_matrix.rs) only calls the public API, catches panics and converts f64 -> integer (non-integers become a sentinel that fails the contract)",
     "swap_rows and fill are modelled at Level B only (not part of C17's statement): mismatches there are counted as drift",
@@ -90,6 +93,11 @@ def _signature(clause, sc, detail=None):
     if clause in ("constructor", "write_in_band") and isinstance(detail, dict) and "ctor" in detail:
         # failed while building an operand: name the constructor; the scenario's final op is irrelevant
         return f"{PROP}/{clause}/{detail['ctor']}/build"
+    if clause.endswith("_after_op"):
+        # two-operation sequence: storage of A, first op, second op
+        first = sc["op"] + ("(" + sc["bkind"] + ")" if sc["op"] in BIN_OPS else "")
+        second = sc["op2"] + ("(" + sc["ckind"] + ")" if sc["op2"] in BIN_OPS else "")
+        return f"{PROP}/{clause}/{_storage_tag(sc)}/{first}>{second}"
     if sc["op"] in BIN_OPS:
         who = _storage_tag(sc) + sc["bkind"]
     else:
@@ -164,7 +172,7 @@ def _violations(viol_lines, by_sid):
         out.append(vlib.Violation(PROP, _signature(clause, s["sc"], detail),
                                   f"clause={clause} scenario={json.dumps(s['sc'], sort_keys=True)} observed={json.dumps(detail, sort_keys=True)}",
                                   {"sc": s["sc"], "initA": s["initA"], "wsA": s["wsA"], "wsB": s["wsB"],
-                                   "expect": s.get("expect")}))
+                                   "wsC": s.get("wsC", []), "expect": s.get("expect")}))
     return out
 
 
@@ -179,6 +187,9 @@ def run(tier, seed, replay, keep, mutate=None):
             blob = json.load(open(replay))
             s = dict(blob["scenario"])
             s["sid"] = 1
+            s.setdefault("wsC", [])
+            for k, v in SC2_DEFAULTS.items():      # replay files written before two-operation scenarios existed
+                s["sc"].setdefault(k, v)
             viol, drift, nlines, _, _ = _validate(work, [s], "replay", mutate)
             vs = _violations(viol, {1: s})
             n_new, _ = vlib.report(PROP, vs)
@@ -218,6 +229,7 @@ def run(tier, seed, replay, keep, mutate=None):
         per_op = collections.Counter(s["sc"]["op"] for s in scen)
         per_ctor = collections.Counter(s["sc"]["ctor"] for s in scen)
         per_pair = collections.Counter(_storage_tag(s["sc"]) + s["sc"]["bkind"] for s in scen if s["sc"]["op"] in BIN_OPS)
+        per_op2 = collections.Counter(s["sc"]["op"] + ">" + s["sc"]["op2"] for s in scen if s["sc"]["op2"] != "none")
         per_n = collections.Counter(str(s["sc"]["n"]) for s in scen)
         panics = sum(1 for s in scen if s["expect"]["panic"])
         pick = [scen[(seed * 7919 + k * len(scen) // 3) % len(scen)] for k in range(3)]
@@ -229,12 +241,15 @@ def run(tier, seed, replay, keep, mutate=None):
             "traces_validated_against_impl": len(scen), "trace_lines": nlines,
             "samples": samples, "drift": len(drift), "drift_samples": drift_samples,
             "per_action": dict(per_op), "per_constructor": dict(per_ctor), "per_storage_pair": dict(per_pair),
+            "two_operation_sequences": sum(per_op2.values()), "per_two_operation_sequence": dict(per_op2),
             "per_size": dict(per_n), "scenarios_expecting_panic": panics,
             "contract_failures_on_impl": len(viol), "known_findings_matched": n_known,
             "exhaustive": True,
             "rule": "TLC enumerates every scenario of MC_Matrix (" + cfg + "): size x constructor x (ml,mu) in 0..n x fill pattern x "
                     "operation (read-all / one extra write at every (i,j) / binary op with every storage of the second operand / "
-                    "scalar op with scalars -1,0,1,2 / is_identity / swap_rows / fill); each scenario is one behaviour of the "
+                    "scalar op with scalars -1,0,1,2 / is_identity / swap_rows / fill), plus two-operation sequences (first: every scalar "
+                    "op x scalar or binary op; second, on the result: is_identity / write at every (i,j) + read-all / scalar op / "
+                    "binary op with a fresh Identity, Full or Banded operand), the contract being evaluated after EACH step; each scenario is one behaviour of the "
                     "model, is replayed on the real Matrix API and its recorded trace is validated by TLC against Trace_Matrix",
         }
         vlib.write_evidence(PROP, tier, seed, "model_checking", cov, ASSUMPTIONS, time.time() - t_start, n_new)
